@@ -95,3 +95,35 @@ func vProbe_C11_ref(a []string) string {
 	}
 	return r
 }
+
+// long inputs with structure: a symbolic head, a run of k bytes that browsers ignore
+// (TAB) and a symbolic tail. This reaches "javascript:" hidden behind or around many
+// ignorable bytes without making every byte symbolic.
+func vHarness_C11_padded() {
+	k, nh, nt := vParam("k"), vParam("nh"), vParam("nt")
+	head := vNondetString("head", nh)
+	tail := vNondetString("tail", nt)
+	vASCII(head)
+	vASCII(tail)
+	pad := ""
+	for i := 0; i < k; i++ {
+		pad += "\t"
+	}
+	if vParam("space") == 1 {
+		// leading spaces are stripped only at the start: use them when the head is empty
+		pad = ""
+		for i := 0; i < k; i++ {
+			pad += " "
+		}
+	}
+	s := head + pad + tail
+	out := URLSanitized(s).String()
+	vAssert(out == s || out == InnocuousURL, "result is the input or the innocuous URL")
+	if out != s {
+		return
+	}
+	vReach("accepted")
+	phase, amp := refSchemeScan(s)
+	vAssert(phase != refPhaseJS, "accepted URL has the javascript scheme under the WHATWG scheme scanner")
+	vAssert(!amp, "accepted URL has '&' before the scheme decision point (character-reference decoding could change the scheme)")
+}
